@@ -16,6 +16,7 @@ mod props_fw;
 mod props_more;
 mod props_ref;
 mod props_sim;
+mod props_simexact;
 mod props_simtimers;
 mod refmodel;
 mod simsut;
